@@ -25,6 +25,9 @@ Record fmt := mkfmt {
   encf : item -> est -> list N * est;           (* one Encode call *)
   decf : cfg -> res (item * cfg);               (* one Decode(&interface{}) call *)
   skipf : cfg -> res (list N * cfg);            (* nextValueBytes: the bytes walked over, new configuration *)
+  rawf : item -> est -> list N;                 (* the bytes of the value proper: what Decode(&Raw) must hold (binary
+                                                   formats: all of what Encode wrote; json: without the TermWhitespace
+                                                   delimiter) *)
   normf : item -> item;                         (* what decode returns for what encode was given *)
   rem : cfg -> nat                              (* bytes not yet consumed (total - NumBytesRead) *)
 }.
@@ -81,7 +84,7 @@ Section Seq.
          | MTyped t => OTyped (typed t (normf F v))
          | MNaked => ONaked (normf F v)
          | MSkip => OSkipped
-         | MRaw => ORaw b
+         | MRaw => ORaw (rawf F v e)
          end) :: project mr vr e1
     | _, _ => []
     end.
@@ -107,9 +110,9 @@ Section Seq.
     law_value : forall v e c tl,
       okf v e tl -> at_ e c (fst (encf F v e) ++ tl) ->
       exists c', decf F c = Ok (normf F v, c')
-              /\ skipf F c = Ok (fst (encf F v e), c')
+              /\ skipf F c = Ok (rawf F v e, c')
               /\ at_ (snd (encf F v e)) c' tl;
-    law_rem : forall e c tl, at_ e c tl -> (length tl - slack <= rem F c <= length tl)%nat
+    law_rem : forall e c tl, at_ e c tl -> (length tl - slack <= rem F c <= length tl + slack)%nat
   }.
 
   Fixpoint ok_seq (vs : list item) (e : est F) (tl : list N) : Prop :=
@@ -143,7 +146,7 @@ Section Seq.
                      | MTyped t => OTyped (typed t (normf F v))
                      | MNaked => ONaked (normf F v)
                      | MSkip => OSkipped
-                     | MRaw => ORaw (fst (encf F v e))
+                     | MRaw => ORaw (rawf F v e)
                      end, c')
       /\ at_ (snd (encf F v e)) c' tl.
   Proof.
@@ -154,7 +157,7 @@ Section Seq.
   Qed.
 
   (* within the slack of the exact positions *)
-  Definition close (a b : nat) : Prop := (b - slack <= a <= b)%nat.
+  Definition close (a b : nat) : Prop := (b - slack <= a <= b + slack)%nat.
 
   Theorem seq_ok : forall vs ms e c tl,
     length ms = length vs -> ok_seq vs e tl -> at_ e c (bytes_seq vs e ++ tl) ->
